@@ -153,9 +153,13 @@ MISMATCH: list = []     # (which, frame, packet, rule, real): the model's rule a
 def _want_echo(cmd):
     from ramses_tx.protocol_fsm import IsInIdle, WantEcho  # noqa: PLC0415
 
+    from ramses_tx.command import Command  # noqa: PLC0415
+
     c = _Ctx()
     c._state = IsInIdle(c)
-    c._state.cmd_sent(cmd, is_retry=False)
+    # a FRESH command object (the same frame), which nobody has looked at: what the FSM reads must not depend on an earlier reader having
+    # filled the command's lazily computed headers
+    c._state.cmd_sent(Command(str(cmd)), is_retry=False)
     assert c.moves == [("WantEcho", None)], c.moves
     c._state = WantEcho(c)
     c.moves.clear()
